@@ -16,7 +16,7 @@ ENV.pop("GOSUMDB", None)
 
 
 def sh(cmd, cwd, timeout=1800, env=None):
-    p = subprocess.run(cmd, cwd=cwd, shell=True, stdout=subprocess.PIPE, stderr=subprocess.STDOUT, text=True,
+    p = subprocess.run(cmd, cwd=cwd, shell=True, stdout=subprocess.PIPE, stderr=subprocess.STDOUT, text=True, errors="replace",
                        timeout=timeout, env=env or ENV)
     return p.returncode, p.stdout
 
